@@ -54,7 +54,7 @@ def check(run):
                 run.fail('D1', 'Cell.to_boc/Cell.one_from_boc', f'{tag}: raises {e}', w, witness=dict(dag=name, opt=opt))
                 continue
             run.evaluations += 1
-            same_hash = repr(back.attrs.get('_hash')) == repr(c.attrs.get('_hash')) if isinstance(back, Inst) else False
+            same_hash = repr(cm.cached(it, back, '_hash')) == repr(cm.cached(it, c, '_hash')) if isinstance(back, Inst) else False
             same_struct = isinstance(back, Inst) and bocrun.ckey(it, back) == bocrun.ckey(it, c) == bocrun.skey(roots[0])
             good = same_hash and same_struct
             run.check(good, 'D1', 'Cell.to_boc/Cell.one_from_boc' if not good else tag, f'{tag}: same hash {same_hash}, same structure {same_struct}', w, witness=dict(dag=name, opt=opt))
@@ -113,7 +113,7 @@ def check(run):
                 try:
                     out2 = cm.call_method(it, sub, 'to_boc', K(opt[0]), K(opt[1]), K(opt[2]))
                     back = it.call(it.getattr(prog.cls('Cell'), 'one_from_boc'), [out2], {})
-                    ok = isinstance(back, Inst) and bocrun.ckey(it, back) == bocrun.ckey(it, sub) and repr(back.attrs.get('_hash')) == repr(sub.attrs.get('_hash'))
+                    ok = isinstance(back, Inst) and bocrun.ckey(it, back) == bocrun.ckey(it, sub) and repr(cm.cached(it, back, '_hash')) == repr(cm.cached(it, sub, '_hash'))
                     why = 'round-trips' if ok else 'parses to a different cell'
                 except RaiseEx as e:
                     ok, why = False, f'raises {e}'
